@@ -1105,3 +1105,9 @@ mod tests {
         assert_eq!("755 -rwxr-xr-x", deps.get_output_as_string());
     }
 }
+
+// Verification hook: harnesses live outside the repository (see MANIFEST.hooks of the verifier).
+#[cfg(kani)]
+pub(crate) mod verif_kani {
+    include!(concat!(env!("FINDUTILS_VERIF_DIR"), "/harness/m_printf.rs"));
+}
